@@ -282,3 +282,97 @@ func ruleProgress(p *Prog, r *Report, pkgs []string, floor int) {
 	r.Count("offset_advancing_loops", nLoops)
 	r.Floor(rule, n, floor)
 }
+
+// ruleOpBudget — R-OPBUDGET: an interpreter loop whose next instructions are chosen by the program it runs (subroutine
+// calls re-assign the instruction stream) bounds the number of operators it executes: on every path from the loop head to
+// the dispatch of an operator (the invoke of handler.<apply>) the loop counter is incremented and compared with a constant,
+// the exceeding branch returns an error, and the incremented value is what every back edge that follows a dispatch
+// carries to the next iteration. (Nesting of subroutines is bounded by the call stack; the number of calls is not.)
+func ruleOpBudget(p *Prog, r *Report, pkg, recv, fn, apply string) {
+	const rule = "R-OPBUDGET"
+	f := p.Func(pkg, recv, fn)
+	key := p.FnName(f) + "/" + apply
+	r.Instance(rule, key)
+	var disp *ssa.Call
+	for _, b := range f.Blocks {
+		for _, in := range b.Instrs {
+			if c, ok := in.(*ssa.Call); ok && c.Call.IsInvoke() && c.Call.Method.Name() == apply {
+				disp = c
+			}
+		}
+	}
+	if disp == nil {
+		undecided("R-OPBUDGET: %s no longer dispatches through an invoke of %s", p.FnName(f), apply)
+	}
+	var loop *natLoop
+	for _, l := range naturalLoops(f) {
+		if l.blocks[disp.Block()] && (loop == nil || len(l.blocks) < len(loop.blocks)) {
+			loop = l
+		}
+	}
+	if loop == nil {
+		undecided("R-OPBUDGET: the dispatch of %s is not in a loop", p.FnName(f))
+	}
+	ok, why := false, "no counter of the loop is incremented, compared with a constant and failing before the dispatch"
+	for _, in := range loop.header.Instrs {
+		ph, isPhi := in.(*ssa.Phi)
+		if !isPhi {
+			break
+		}
+		if bt, isB := ph.Type().Underlying().(*types.Basic); !isB || bt.Info()&types.IsInteger == 0 {
+			continue
+		}
+		// the increments of the counter
+		for _, u := range *ph.Referrers() {
+			inc, isInc := u.(*ssa.BinOp)
+			if !isInc || inc.Op != token.ADD || inc.X != ssa.Value(ph) {
+				continue
+			}
+			if k, isK := intConst(inc.Y); !isK || k <= 0 {
+				continue
+			}
+			// a comparison of the incremented value with a constant whose exceeding branch fails, dominating the dispatch
+			guarded := false
+			for _, cu := range *inc.Referrers() {
+				cmp, isCmp := cu.(*ssa.BinOp)
+				if !isCmp || cmp.X != ssa.Value(inc) || (cmp.Op != token.GTR && cmp.Op != token.GEQ) {
+					continue
+				}
+				if _, isK := intConst(cmp.Y); !isK {
+					continue
+				}
+				for _, iu := range *cmp.Referrers() {
+					iff, isIf := iu.(*ssa.If)
+					if !isIf {
+						continue
+					}
+					if failingEdge(f, iff.Block().Succs[0], nil) && iff.Block().Succs[1].Dominates(disp.Block()) {
+						guarded = true
+					}
+				}
+			}
+			if !guarded {
+				why = "the counter " + ph.Comment + " is incremented, but no comparison of the incremented value with a constant, failing when exceeded, dominates the dispatch"
+				continue
+			}
+			// every back edge coming from a block that the dispatch dominates carries the incremented value
+			carried := true
+			for i, e := range ph.Edges {
+				pred := loop.header.Preds[i]
+				if !loop.blocks[pred] {
+					continue
+				}
+				if disp.Block().Dominates(pred) && e != ssa.Value(inc) {
+					carried = false
+				}
+			}
+			if !carried {
+				why = "the counter " + ph.Comment + " is tested before the dispatch, but an iteration that dispatched an operator does not carry the incremented value to the next one"
+				continue
+			}
+			ok = true
+			why = "the counter " + ph.Comment + " is incremented and compared with a constant on every path to the dispatch (the exceeding branch returns an error), and every iteration that dispatched an operator carries the incremented value"
+		}
+	}
+	r.Check(ok, rule, key, p.IPos(disp), why)
+}
